@@ -624,7 +624,7 @@ def writer_map(prog, fn_path):
             problems.append("value %s is emitted outside any element/attribute" % name)
             continue
         for s in sites[i]:
-            out.setdefault(name, []).append(dict(path=s["path"], where=s["where"], etype=s["etype"], spec=v[3], trait=v[2], tree=v[1], fn=v[4]))
+            out.setdefault(name, []).append(dict(path=s["path"], where=s["where"], etype=s["etype"], spec=v[3], trait=v[2], tree=v[1], fn=v[4], elem=s.get("elem")))
     return out, text, problems, root
 
 
